@@ -267,7 +267,7 @@ pub fn run(prop: &'static str, tier: &str) -> i32 {
                 _ => ('T', ZForm::MinusZero),
             };
             let Some(s) = rfc3339::render(t, off, k, sep, z) else { return };
-            let case = TimeCase { proto: Proto::V4L, now_ns: Some(now.to_string()), payload: payload_for(claim, &s) };
+            let case = TimeCase { proto: Proto::workhorse(), now_ns: Some(now.to_string()), payload: payload_for(claim, &s) };
             evaluate(prop, &case, &mut acc);
             if acc.samples.is_empty() && off != 0 && k == 9 {
                 acc.sample(json!({"proto": "v4.local", "now_ns": now.to_string(), "payload": case.payload, "t_minus_now_ns": (t - now).to_string()}));
